@@ -8,6 +8,7 @@ suspension window of ``disconnect``, the read loop and the two subclass entry po
 from __future__ import annotations
 
 import ast
+import re
 
 from sa import absint
 from sa.cfg import CFG
@@ -173,6 +174,32 @@ def run(ctx):
         ctx.instance(R3, f"{name}[Logout {'sent' if want_logout else 'not sent'}]", logout == want_logout,
                      (f"no Logout stating the reason is sent for defect {name} although the counterparty is identifiable" if want_logout else
                       f"a Logout is sent for defect {name} although the counterparty is not identifiable"), loc(repo.func("AsyncFIXConnection._validate_integrity")))
+
+    # E9 treats validate_comp_ids as the atom 'CompIDs match': its body must be that conjunction, and the call site must bind 49 -> target side, 56 -> sender side
+    vc = repo.func("FIXSession.validate_comp_ids")
+    params = [a.arg for a in vc.args.args][1:]
+    rets = [n for n in walk_no_nested(vc) if isinstance(n, ast.Return)]
+    pairs = set()
+    conj = len(rets) == 1 and isinstance(rets[0].value, ast.BoolOp) and isinstance(rets[0].value.op, ast.And)
+    if conj:
+        for c in rets[0].value.values:
+            if isinstance(c, ast.Compare) and len(c.ops) == 1 and isinstance(c.ops[0], ast.Eq):
+                pairs.add(frozenset((unparse(c.left), unparse(c.comparators[0]))))
+    want = {frozenset(("self.sender_comp_id", "sender_comp_id")), frozenset(("self.target_comp_id", "target_comp_id"))}
+    ctx.instance(R3, "FIXSession.validate_comp_ids[both CompIDs must match]", conj and pairs == want and set(params) == {"target_comp_id", "sender_comp_id"},
+                 f"validate_comp_ids is not `sender == sender and target == target` (found {sorted(map(sorted, pairs))}): a message for / from another party passes the identity check",
+                 loc(vc))
+    vi = repo.func("AsyncFIXConnection._validate_integrity")
+    for c in walk_no_nested(vi):
+        if isinstance(c, ast.Call) and unparse(c.func).endswith("validate_comp_ids"):
+            bound = {}
+            for p_, a in zip(params, c.args):
+                bound[p_] = unparse(a)
+            for k in c.keywords:
+                bound[k.arg] = unparse(k.value)
+            ok = re.fullmatch(r"\w+\[FTag\.SenderCompID\]", bound.get("target_comp_id", "")) and re.fullmatch(r"\w+\[FTag\.TargetCompID\]", bound.get("sender_comp_id", ""))
+            ctx.instance(R3, "_validate_integrity[49 vs our target, 56 vs our sender]", bool(ok),
+                         f"the inbound SenderCompID(49)/TargetCompID(56) are bound as {bound}: the peer's sender must be compared with our target and vice versa", loc(c))
 
     # a too-low SequenceReset-GapFill / a too-low message while a resend is awaited is tolerated (no disconnect) but must stay without effect
     for label, pred in (("too-low GapFill", lambda s: s.kind == "SEQRESET_GF" and s.ord == "LT"),
